@@ -117,6 +117,12 @@ def check_accessors(chk, prog, sim):
                     bad = True
                     continue
                 res[nm] = sim.final_value(ls[0].state, ls[0].value)
+                if reg == 0:
+                    touched = [a for a in ls[0].state.arith if "t.0" in a[1] or "t.0" in a[2]]
+                    if touched:
+                        chk.violation("C06.agree", "%s:arith-before-start" % nm, "%s with %s: overflow-checked arithmetic on the query time (%s) is evaluated although t < 0 must return immediately; "
+                                      "it panics for times near i64::MIN instead of reporting 'before start'" % (fn["pretty"], case, touched[0]), fn=fn["pretty"], file=loc(fn["span"]), case=case)
+                        ok = False
             if bad:
                 continue
             problems = []
@@ -264,6 +270,16 @@ def check_constructor(chk, prog, sim):
         else:
             c = ec[0]
             exp = {"Position": Sym("end.position"), "Velocity": Sym("end.velocity"), "Acceleration": Sym("end.acceleration")}[c.vname]
+            zero = {}
+            for p in leaf.pc:
+                if p[0] == "frel" and ("end.acceleration" in p[1].split(" ? ") or "end.velocity" in p[1].split(" ? ")) and "0.0:f32" in p[1]:
+                    f = [x for x in p[1].split(" ? ") if x.startswith("end.")][0].split(".")[1]
+                    zero[f] = (p[2] == "=")
+            want = "Acceleration" if zero.get("acceleration") is False else ("Velocity" if zero.get("velocity") is False else ("Position" if zero.get("velocity") is True and zero.get("acceleration") is True else None))
+            if want != c.vname:
+                chk.violation("C06.ctor", key + ":end-command-kind", "end command kind %s on a path with zero tests %s: expected the lowest non-zero derivative (%s)" % (c.vname, zero, want),
+                              fn=fn["pretty"], file=loc(fn["span"]))
+                ok = False
             if c.fields[0] != exp:
                 chk.violation("C06.ctor", key + ":end-command", "end command %r is not taken from the end state's %s" % (c, c.vname.lower()), fn=fn["pretty"])
                 ok = False
